@@ -348,7 +348,10 @@ def _abs(interp, x):
 
 def _sabs(x):
     if isinstance(x, SCplx):
-        return s_sqrt(x.re * x.re + x.im * x.im)
+        m2 = x.re * x.re + x.im * x.im
+        if isinstance(m2, Sym):
+            CTX.side.append((m2 >= 0).t)          # a sum of two squares is non-negative
+        return s_sqrt(m2)
     if is_conc(x):
         return abs(x) if isinstance(x, int) else abs(_q(x))
     return abs(x)
@@ -580,6 +583,8 @@ def _float(interp, x=0):
         raise Unsupported("float() of symbolic string")
     if isinstance(x, SArr) and x.ndim == 0:
         return to_float(x.at(()))
+    if hasattr(x, 'int_hook'):
+        return to_float(x.int_hook(interp))
     return to_float(x)
 
 
@@ -1318,7 +1323,13 @@ def _round_scalar(x):
 LIB['numpy.round'] = LIB['numpy.around'] = LIB['numpy.rint'] = _ew1(_round_scalar, 'real')
 LIB['numpy.ceil'] = _ew1(s_ceil, 'real')
 LIB['numpy.floor'] = _ew1(s_floor, 'real')
-LIB['numpy.abs'] = LIB['numpy.absolute'] = LIB['numpy.fabs'] = _ew1(_sabs, None)
+def _np_abs(interp, x, *a, **k):
+    if isinstance(x, SArr):
+        return A.elementwise1(x, _sabs, 'real' if x.dtype == 'complex' else x.dtype)
+    return _abs(interp, x)
+
+
+LIB['numpy.abs'] = LIB['numpy.absolute'] = LIB['numpy.fabs'] = _np_abs
 LIB['numpy.sqrt'] = _ew1(s_sqrt, 'real')
 LIB['numpy.real'] = np_real = _ew1(lambda x: SCplx.lift(x).re if isinstance(x, (SCplx, complex)) else x, 'real')
 LIB['numpy.imag'] = np_imag = _ew1(lambda x: SCplx.lift(x).im if isinstance(x, (SCplx, complex)) else 0, 'real')
@@ -2207,6 +2218,9 @@ class FileW:
 
     def close_ctx(self, interp):
         self.closed = True
+        cb = getattr(interp, 'on_file_close', None)
+        if cb is not None:
+            cb(self)
 
 
 LIBATTR[('filew', 'write')] = lambda interp, f: (lambda i2, data: f.write(i2, data))
@@ -2226,3 +2240,11 @@ class TextFileR:
 
 
 LIBATTR[('textfile', 'readlines')] = lambda interp, f: (lambda i2: list(f.lines))
+
+
+@lib('glob.glob')
+def glob_glob(interp, pattern, **k):
+    h = getattr(interp, 'glob_hook', None)
+    if h is None:
+        raise Unsupported("glob without a directory model")
+    return h(pattern)
